@@ -537,6 +537,9 @@ func checkSpecEngineIndependence(c *Ctx, r *Report) {
 		allInstrs(fi.SSA, true, func(_ *ssa.Function, _ *ssa.BasicBlock, _ int, ins ssa.Instruction) {
 			if cl, ok := ins.(ssa.CallInstruction); ok {
 				n := calleeName(cl)
+				if cf := cl.Common().StaticCallee(); cf != nil && w.isNewFn(cf) {
+					return // a helper split off GetTemplateContext: its instructions are walked as part of it
+				}
 				if isGleeceCallee(n) && !strings.HasPrefix(strings.TrimLeft(n, "(*"), "infrastructure/logger") {
 					calls++
 					ss = append(ss, w.pos(cl.Pos()))
